@@ -24,6 +24,59 @@ def const_factor(e: ast.expr):
     return 1, [norm(e)]
 
 
+def state_rule(ctx: Ctx, res: Result, RID: str):
+    """record_triggered is reached iff process() started (typestate of the action context)."""
+    p, t, g = ctx.prog, ctx.types, ctx.guards
+    ace = p.func(AC + ".__exit__")
+    recs = [c for c in t.calls_in(ace) if any(x.qname == LA + ".record_triggered" for x in t.resolve_call(c, ace).repo)]
+    flag = None
+    for c in recs:
+        conds = paths.conditions(p, c, ace)
+        ht = [cc for cc, pol in conds if pol and isinstance(cc, ast.Call) and any(x.name == "has_triggered" for x in t.resolve_call(cc, ace).repo)]
+        direct = [cc for cc, pol in conds if pol and isinstance(cc, ast.Attribute)]
+        if ht or direct:
+            flag = term(ctx, ace, norm(ht[0]) if ht else norm(direct[0]))
+            res.ok(RID, {"record only when": flag})
+        else:
+            res.fail(Finding(RID, ace.qname, c, ace.loc(c), "record_triggered is not conditional on the action having been processed: a hit rejected by limits/condition uses up fire budget"))
+    all_rec = [(f, c) for f in p.functions.values() for c in t.calls_in(f) if any(x.qname == LA + ".record_triggered" for x in t.resolve_call(c, f).repo)]
+    if len(all_rec) == len(recs):
+        res.ok(RID, {"record_triggered call sites": len(all_rec)})
+    for f, c in all_rec:
+        if f is not ace:
+            res.fail(Finding(RID, f.qname, c, f.loc(c), "record_triggered is also called outside ActionContext.__exit__"))
+    if flag:
+        fld = flag.rsplit(".", 1)[1]
+        acls = p.cls(AC)
+        proc = p.func(AC + ".process")
+        for sf, v, _ in t.field_stores(acls, fld):
+            is_true = isinstance(v, ast.Constant) and v.value is True
+            if sf.name == "__init__" and isinstance(v, ast.Constant) and v.value is False:
+                res.ok(RID, {"flag initialised False": sf.loc(v)})
+            elif sf is proc and is_true:
+                st = paths.stmt_of(p, v)
+                inner = [c for c in t.calls_in(proc) if any(x.name == "_process_action" for x in t.resolve_call(c, proc).repo)]
+                need(inner, "ActionContext.process does not call _process_action")
+                tries = [tr for tr in t.nodes_in(proc, ast.Try) if any(paths.within(p, st, fs) for fs in tr.finalbody)
+                         and any(paths.within(p, inner[0], b) for b in tr.body)]
+                if tries or paths.dominates(p, st, inner[0], proc):
+                    res.ok(RID, {"flag set on every path of process()": proc.loc(st)})
+                else:
+                    res.fail(Finding(RID, proc.qname, st, proc.loc(st), "the processed flag is not set when _process_action raises: a failing collection is never counted and repeats forever"))
+            else:
+                res.fail(Finding(RID, sf.qname, paths.stmt_of(p, v), sf.loc(v), "the processed flag is written outside __init__(False)/process(True)"))
+    worker, roles = trace_worker(ctx)
+    for c in [c for c in t.calls_in(worker) if any(x.qname == AC + ".process" for x in t.resolve_call(c, worker).repo)]:
+        withs = [a for a in p.ancestors(c, stop=worker.node) if isinstance(a, ast.With) and any(
+            isinstance(i.context_expr, ast.Call) and any(x.name == "action_context" for x in t.resolve_call(i.context_expr, worker).repo)
+            and i.optional_vars is not None and norm(i.optional_vars) == norm(c.func.value) for i in a.items)]
+        if withs:
+            res.ok(RID, {"process() inside": "with " + norm(withs[0].items[0].context_expr)})
+        else:
+            res.fail(Finding(RID, worker.qname, c, worker.loc(c), "process() is called outside `with action_context(...)`: the hit is never recorded"))
+
+
+
 def run(ctx: Ctx, tier: str) -> Result:
     res = Result("C04")
     res.explanation = (
@@ -169,52 +222,7 @@ def run(ctx: Ctx, tier: str) -> Result:
             res.ok("C04.UNITS", {"only __init__/fire write the statistics": True})
 
     # ---------------- STATE
-    recs = [c for c in t.calls_in(ace) if any(x.qname == LA + ".record_triggered" for x in t.resolve_call(c, ace).repo)]
-    flag = None
-    for c in recs:
-        conds = paths.conditions(p, c, ace)
-        ht = [cc for cc, pol in conds if pol and isinstance(cc, ast.Call) and any(x.name == "has_triggered" for x in t.resolve_call(cc, ace).repo)]
-        direct = [cc for cc, pol in conds if pol and isinstance(cc, ast.Attribute)]
-        if ht or direct:
-            flag = term(ctx, ace, norm(ht[0]) if ht else norm(direct[0]))
-            res.ok("C04.STATE", {"record only when": flag})
-        else:
-            res.fail(Finding("C04.STATE", ace.qname, c, ace.loc(c), "record_triggered is not conditional on the action having been processed: a hit rejected by limits/condition uses up fire budget"))
-    all_rec = [(f, c) for f in p.functions.values() for c in t.calls_in(f) if any(x.qname == LA + ".record_triggered" for x in t.resolve_call(c, f).repo)]
-    if len(all_rec) == len(recs):
-        res.ok("C04.STATE", {"record_triggered call sites": len(all_rec)})
-    for f, c in all_rec:
-        if f is not ace:
-            res.fail(Finding("C04.STATE", f.qname, c, f.loc(c), "record_triggered is also called outside ActionContext.__exit__"))
-    if flag:
-        fld = flag.rsplit(".", 1)[1]
-        acls = p.cls(AC)
-        proc = p.func(AC + ".process")
-        for sf, v, _ in t.field_stores(acls, fld):
-            is_true = isinstance(v, ast.Constant) and v.value is True
-            if sf.name == "__init__" and isinstance(v, ast.Constant) and v.value is False:
-                res.ok("C04.STATE", {"flag initialised False": sf.loc(v)})
-            elif sf is proc and is_true:
-                st = paths.stmt_of(p, v)
-                inner = [c for c in t.calls_in(proc) if any(x.name == "_process_action" for x in t.resolve_call(c, proc).repo)]
-                need(inner, "ActionContext.process does not call _process_action")
-                tries = [tr for tr in t.nodes_in(proc, ast.Try) if any(paths.within(p, st, fs) for fs in tr.finalbody)
-                         and any(paths.within(p, inner[0], b) for b in tr.body)]
-                if tries or paths.dominates(p, st, inner[0], proc):
-                    res.ok("C04.STATE", {"flag set on every path of process()": proc.loc(st)})
-                else:
-                    res.fail(Finding("C04.STATE", proc.qname, st, proc.loc(st), "the processed flag is not set when _process_action raises: a failing collection is never counted and repeats forever"))
-            else:
-                res.fail(Finding("C04.STATE", sf.qname, paths.stmt_of(p, v), sf.loc(v), "the processed flag is written outside __init__(False)/process(True)"))
-    worker, roles = trace_worker(ctx)
-    for c in [c for c in t.calls_in(worker) if any(x.qname == AC + ".process" for x in t.resolve_call(c, worker).repo)]:
-        withs = [a for a in p.ancestors(c, stop=worker.node) if isinstance(a, ast.With) and any(
-            isinstance(i.context_expr, ast.Call) and any(x.name == "action_context" for x in t.resolve_call(i.context_expr, worker).repo)
-            and i.optional_vars is not None and norm(i.optional_vars) == norm(c.func.value) for i in a.items)]
-        if withs:
-            res.ok("C04.STATE", {"process() inside": "with " + norm(withs[0].items[0].context_expr)})
-        else:
-            res.fail(Finding("C04.STATE", worker.qname, c, worker.loc(c), "process() is called outside `with action_context(...)`: the hit is never recorded"))
+    state_rule(ctx, res, "C04.STATE")
 
     # ---------------- INT
     gi = p.func(LA + ".__get_int")
